@@ -18,6 +18,9 @@ META = {
 # package ARCSLAB (the two node stores): coq/Tbl/RcStore.v, coq/Tbl/ArcSlabRefine.v, theorems C20_store_* / C20_arcslab_*
 META["level_text"] += " Node stores (package ARCSLAB, C20_store_* / C20_arcslab_*, 11 theorems): the abstract node store (coq/Tbl/RcStore.v: a map id -> (payload, count) with fresh ids + the client's handle variables) keeps 'count = number of handles, never 0' under every step (store_step_inv) and its results do not depend on the ids: two stores with any id types and any choice of fresh ids return the same results for the same script from related states (store_id_independent, store_runs_id_independent); the model of the pointer-based manager's store (crate arcslab, coq/Tbl/ArcSlab.v) refines it in every reachable state: every item-level operation is one abstract step with the same result, every other operation leaves the abstract state unchanged (arcslab_abs_inv, arcslab_refines_store); a reference store with ids 0,1,2,... refines it as well (arcslab_reference_refines), so slab and reference store return the same results for every script, rejected operations included, for every page size (arcslab_equiv_reference, arcslab_page_size_irrelevant). Tie of the slab model to the crate: the arcslab stage of ./check C05 (checks/arcslabcommon.py)."
 META["level_note"] += " Node stores (package ARCSLAB): the slot allocator of the index-based manager is modelled separately (package ALLOC, coq/Mgr/Alloc.v); its refinement of coq/Tbl/RcStore.v is not proved here (the reference store stands for 'a store with another id discipline')."
+# package STOREREF (both node stores refine one abstract store): coq/Mgr/IndexStore*.v, theorems C20_index_* / C20_stores_equivalent*
+META["level_text"] += " Both node stores refine ONE abstract store (package STOREREF, C20_index_* / C20_stores_equivalent / C20_stores_equivalent_new, 21 theorems): the index-based manager's node store is modelled as one state machine (coq/Mgr/IndexStore.v) = the slot allocator of package ALLOC (every thread's local store state, any interleaving) x (payload, stored reference count) of the slots that hold a node x the edge values that exist (a child edge is an edge value held by a node), with add_node (count 2, two edges, children moved in; OutOfMemory releases them), clone_edge, drop_edge (never frees a slot), the collector's / try_remove_node's removal (count 1: children released, free_slot) and every allocator-internal action. Every operation of every thread that stays inside drop_edge's documented assumption (not the last edge) keeps the invariant (ALLOC's invariant, allocator node <=> payload, stored count = number of edge values >= 1, child edges held by live nodes) and IS a fixed abstract script of coq/Tbl/RcStore.v with the same results (one step for clone / drop / read, two for add_node, 1 + #children for a removal; allocator-internal actions and kept entries are stutters): index_refines_store, index_run_refines (any interleaving); drop_edge leaks exactly when it gets a last edge (index_drop_last_leaks); OutOfMemory = the abstract store with a capacity: add_node fails only if the store holds capacity entries or free slots are parked with other threads, does fail when full, iff with nothing parked elsewhere (index_oom_cases, _full_oom, _add_capacity, _oom_single). A client with Arc semantics on the index store runs RcStore's script language: each accepted operation is one abstract step (index_arc_step_spec); for every script without OutOfMemory, from any edge-free state of the index store, any thread, the results equal those of the reference store with ids 0,1,2,... and of the slab for every page size, rejected operations included (index_equiv_reference, stores_equivalent); a new manager and a script with at most capacity additions never meets OutOfMemory (index_no_oom, stores_equivalent_new). Non-vacuity: capacity 6, chunk 2 (index_example)."
+META["level_note"] += " Package STOREREF: coq/Mgr/IndexStore.v is proof-only glue (not extracted): its allocator component is ALLOC's step function (replayed against the code by the alloc stage of C05 / C14), the slab side is ARCSLAB's model (arcslab stage of C05), counts = handles + parents are audited on real snapshots by C05 / C07, and the two builds are compared by this check's digests; the Arc client (arc_step) is a model-level client, not code of /repo; steps in which drop_edge meets a last edge are outside the refinement (that the manager never takes one is C07_release_safe on coq/Mgr/Conc.v); IndexStore.v and Conc.v are not composed."
 ALLOWED_AXIOMS = ()
 
 CONFIGS_ALL = ["cfg-default", "cfg-pointer", "cfg-index-nocache-st", "cfg-pointer-nocache-mt",
